@@ -123,6 +123,14 @@ func pinnedCases() []pinned {
 		out = append(out, pinned{File: file, Doc: &innerReplay{Property: prop, Kind: "inner", Variant: variant, Check: check, Unit: unit,
 			Cases: 300, Seed: 7, Schema: s, NoAvoid: noAvoid}})
 	}
+	{
+		s, _, resp, _, _ := baseSchema("p0012")
+		wrap := &schema.Message{Name: "TagList", Fields: []*schema.Field{{Name: "items", Number: 1, Kind: schema.KString, Card: schema.Repeated, Ann: &schema.Ann{Unwrap: true}}}}
+		s.Files[0].Messages = append(s.Files[0].Messages, wrap)
+		resp.Fields = []*schema.Field{fld("total", 1, schema.KInt64, schema.Singular), fld("ratio", 3, schema.KDouble, schema.Singular),
+			{Name: "tags", Number: 2, Kind: schema.KMessage, TypeRef: s.Pkg + ".TagList", Card: schema.Map, MapKey: schema.KString}}
+		innerCase("C05", "C05/unwrap_container_int64_sibling_as_number.json", "server", "c05", "PinService.Do", s, "unwrap_container_siblings_json")
+	}
 	// ---- runtime: fixed ----
 	{
 		s, req, _, m, _ := baseSchema("p0020")
